@@ -37,10 +37,7 @@ def gen_scripts(chk, cfg, simulate=None, depth=None):
 
 def slicer(row, v):
     from props import c05
-    if row['conv'] != 'gen':
-        return c05.CONV[row['conv']](v)
-    pa, pb, ck, cn = row['b']
-    return v[pa:(len(v) + pb if pb <= 0 else pb)], (len(v) + ck if ck < 0 else ck), cn
+    return c05.slice_row(row, v)
 
 
 def worker(unit, emit):
@@ -103,6 +100,16 @@ def worker(unit, emit):
             rec(base.swapcase(), 'swapcase')
             rec(base + base, 'doubled')
             rec(base[::-1], 'reversed')
+        # dictionary characters (letters and symbols the module's own source mentions) at every position of the first base,
+        # at both ends of the others
+        alpha = inputs.module_alphabet(mod)
+        for ch in alpha:
+            spots = range(len(base)) if (bi == 0 and len(base) <= 24) else [0, len(base) - 1]
+            for i in spots:
+                if i < len(base) and base[i] != ch:
+                    rec(base[:i] + ch + base[i + 1:], 'dictionary %r@%d' % (ch, i))
+            rec(base + ch, 'dictionary %r appended' % ch)
+            rec(ch + base, 'dictionary %r prepended' % ch)
         # payload edits with the check character(s) regenerated by the module's own generator (bound in
         # bindings/checkdigit.json): inputs that pass the checksum gate and reach the code behind it
         for key, row in p['gens'].get(name, []):
@@ -125,8 +132,16 @@ def worker(unit, emit):
                         g = f(slicer(row, w)[0])
                     except Exception:
                         continue
-                    if isinstance(g, str) and len(g) == n:
-                        rec(w[:lo] + g + w[lo + n:], 'payload %r@%d + regenerated check' % (c, i))
+                    if isinstance(g, str) and row.get('either') and n == 1:
+                        cands = [w[:lo] + g1 + w[lo + n:] for g1 in g]
+                    elif isinstance(g, str) and len(g) == n:
+                        cands = [w[:lo] + g + w[lo + n:]]
+                    else:
+                        cands = []
+                    for cand in cands:
+                        rec(cand, 'payload %r@%d + regenerated check' % (c, i))
+                        for kw in ac.option_sets(name, mod)[1:]:     # behind the checksum gate under every option set too
+                            rec(cand, 'payload %r@%d + regenerated check' % (c, i), kw)
         # options
         for kw in ac.option_sets(name, mod)[1:]:
             rec(base, 'option', kw)
